@@ -22,12 +22,9 @@ namespace ParamVerif.TimeDyn
 variable {H V : Type}
 
 /-- "with time-dependent dynamic parameters" (`Dynamic.time_dependent = True`) and every cached
-pair of a time-dependent generator is the placeholder `(None, -1)` or `(gen name seed t, t)`.
+pair of a time-dependent generator is the placeholder `(None, _NO_TIME)` or `(gen name seed t, t)`.
 Holds for every freshly built world (`inv_fresh`) and is preserved by every history. -/
 def Inv (env : Env H V) (w : World V) : Prop := w.dynTD = true ∧ HeapOK env w.gens
-
-/-- the cache of `g` is the untouched placeholder and the clock shows the sentinel value -/
-def Sentinel (w : World V) (g : Gen V) : Prop := w.clock.time = -1 ∧ g.last = none
 
 /-- any world whose generators have just been created is coherent -/
 theorem inv_fresh (env : Env H V) (w : World V) (hd : w.dynTD = true)
@@ -45,44 +42,36 @@ theorem history_preserves_inv (env : Env H V) (ops : List Op) (w : World V) (h :
 /-! ## Reading -/
 
 /-- One read of a time-dependent generator `(name, seed)` at time `t` returns
-`draw (hash name seed t)` — unless the generator still holds the placeholder and `t = -1`. -/
-theorem read_value_partial (env : Env H V) (w : World V) (tg : Target) (p gi : Nat) (g : Gen V)
+`draw (hash name seed t)`: a cache hit can only be a value produced at this very time, because
+the marker `_NO_TIME` of a fresh generator is unequal to every time (−1 included). -/
+theorem read_value (env : Env H V) (w : World V) (tg : Target) (p gi : Nat) (g : Gen V)
     (n : String) (s : Int) (pt : PType) (hinv : Inv env w)
     (hr : resolve w tg p = some (.gen gi)) (hg : w.gens[gi]? = some g) (hk : g.kind = .td n s)
-    (hp : w.ptypes[p]? = some pt) (hs : ¬ Sentinel w g) :
+    (hp : w.ptypes[p]? = some pt) :
     (runOp env (.read tg p) w).1 = .ok (.val (some (env.tdVal n s w.clock.time))) := by
   simp only [runOp, readSlot, hr, hp, hg, hinv.1, produceValue]
   have hok := HeapOK_get env _ _ g hinv.2 hg
   unfold GenOK at hok
   simp only [hk] at hok
-  by_cases ht : w.clock.time = g.lastTime
+  by_cases ht : some w.clock.time = g.lastTime
   · -- cache hit: the cached value was produced at this very time
     simp only [Bool.not_true, Bool.false_eq_true, if_false, Bool.false_or, ht, bne_self_eq_false]
-    rcases hok.1 with h1 | ⟨h1, h2⟩
-    · simp only at h1
-      rw [h1]
+    rcases hok.1 with ⟨t, h1, h2⟩ | ⟨_, h2⟩
+    · simp only at h1 h2
+      rw [h1] at ht
+      simp only [Option.some.injEq] at ht
+      rw [h2, ← ht]
       cases pt <;> rfl
-    · exact absurd ⟨ht.trans h2, h1⟩ hs
-  · have : (w.clock.time != g.lastTime) = true := by simpa using ht
+    · simp only at h2
+      rw [h2] at ht
+      simp at ht
+  · have : (some w.clock.time != g.lastTime) = true := by simpa using ht
     simp only [Bool.not_true, Bool.false_eq_true, if_false, Bool.false_or, this, if_true,
       produce_val_td env g _ n s hk]
     cases pt <;> rfl
 
-/-- **C19 (reads), proved part.**  After *any* history, a read of a time-dependent generator
-with name `n` and seed `s` returns `gen n s t` for the current time `t`: the value depends on
-`(n, s, t)` only — not on the order in which times were visited, not on the instance, not on
-what was read before — provided the read is not the first one of a fresh generator at time −1. -/
-theorem read_is_function_of_time_partial (env : Env H V) (w0 : World V) (h0 : Inv env w0)
-    (ops : List Op) (tg : Target) (p gi : Nat) (g : Gen V) (n : String) (s : Int) (pt : PType)
-    (hr : resolve (runOps env ops w0).2 tg p = some (.gen gi))
-    (hg : (runOps env ops w0).2.gens[gi]? = some g) (hk : g.kind = .td n s)
-    (hp : (runOps env ops w0).2.ptypes[p]? = some pt)
-    (hs : ¬ Sentinel (runOps env ops w0).2 g) :
-    (runOp env (.read tg p) (runOps env ops w0).2).1
-      = .ok (.val (some (env.tdVal n s (runOps env ops w0).2.clock.time))) :=
-  read_value_partial env _ tg p gi g n s pt (history_preserves_inv env ops w0 h0) hr hg hk hp hs
-
-/-- The full statement (no exception for the sentinel time). -/
+/-- The full statement: after *any* history, from any coherent world, a read of a time-dependent
+generator with name `n` and seed `s` returns `gen n s t` for the current time `t`. -/
 def C19_full : Prop :=
   ∀ (H V : Type) (env : Env H V) (w0 : World V), Inv env w0 →
   ∀ (ops : List Op) (tg : Target) (p gi : Nat) (g : Gen V) (n : String) (s : Int) (pt : PType),
@@ -92,27 +81,33 @@ def C19_full : Prop :=
     (runOp env (.read tg p) (runOps env ops w0).2).1
       = .ok (.val (some (env.tdVal n s (runOps env ops w0).2.clock.time)))
 
-/-- witness: class `A` with `x = Dynamic(default=UniformRandom(name='g', seed=0, time_dependent=True))`;
-`time_fn(-1); A.x` returns `None` -/
-def witnessWorld : World Unit :=
+/-- **C19 (reads).**  After any history a read of a time-dependent generator returns a value that
+depends on `(name, seed, current time)` only — not on the order in which times were visited, not
+on the instance, not on what was read, inspected, forced, pushed or popped before. -/
+theorem read_is_function_of_time (env : Env H V) (w0 : World V) (h0 : Inv env w0)
+    (ops : List Op) (tg : Target) (p gi : Nat) (g : Gen V) (n : String) (s : Int) (pt : PType)
+    (hr : resolve (runOps env ops w0).2 tg p = some (.gen gi))
+    (hg : (runOps env ops w0).2.gens[gi]? = some g) (hk : g.kind = .td n s)
+    (hp : (runOps env ops w0).2.ptypes[p]? = some pt) :
+    (runOp env (.read tg p) (runOps env ops w0).2).1
+      = .ok (.val (some (env.tdVal n s (runOps env ops w0).2.clock.time))) :=
+  read_value env _ tg p gi g n s pt (history_preserves_inv env ops w0 h0) hr hg hk hp
+
+theorem C19_full_holds : C19_full :=
+  fun _ _ env w0 h0 ops tg p gi g n s pt hr hg hk hp =>
+    read_is_function_of_time env w0 h0 ops tg p gi g n s pt hr hg hk hp
+
+/-- regression witness of the repaired defect (`_Dynamic_time` used to start at −1): class `A`
+with `x = Dynamic(default=UniformRandom(name='g', seed=0, time_dependent=True))`;
+`time_fn(-1); A.x` is the generated value, not the placeholder -/
+def witnessWorld : World Nat :=
   { dynTD := true, clock := Clock.init, gens := [Gen.fresh (.td "g" 0)], ptypes := [.dynamic],
     defaults := [.gen 0], insts := [] }
-def witnessEnv : Env Unit Unit := { hash := fun _ _ _ => (), draw := fun _ => (), stream := fun _ _ => () }
+def witnessEnv : Env Int Nat := { hash := fun _ s t => s + t, draw := fun h => h.toNat + 7, stream := fun _ k => k }
 
-/-- **The full statement is false of the code**: `_Dynamic_time` is initialised to −1, a real
-time value, so the first read at time −1 is taken for a cache hit and returns the placeholder. -/
-theorem C19_full_refuted : ¬ C19_full := by
-  intro h
-  have h0 : Inv witnessEnv witnessWorld :=
-    inv_fresh _ _ rfl (by intro g hg; simp [witnessWorld] at hg; exact ⟨_, hg⟩)
-  have := h Unit Unit witnessEnv witnessWorld h0 [.setTime (-1)] .cls 0 0 (Gen.fresh (.td "g" 0)) "g" 0
-    .dynamic rfl rfl rfl rfl
-  revert this
-  decide
-
-/-- the witness really is the sentinel case (the hypothesis of the partial theorem fails only there) -/
-example : Sentinel (runOps witnessEnv [.setTime (-1)] witnessWorld).2 (Gen.fresh (.td "g" 0)) := by
-  unfold Sentinel; decide
+example : (runOp witnessEnv (.read .cls 0) (runOps witnessEnv [.setTime (-1)] witnessWorld).2).1
+    = .ok (.val (some (witnessEnv.tdVal "g" 0 (-1)))) := by
+  decide +kernel
 
 /-- **Order and instance independence.**  Two arbitrary histories from two arbitrary coherent
 worlds, two parameters (any instances) whose generators have the same name and seed, read at the
@@ -126,15 +121,13 @@ theorem read_same_any_order_any_instance (env : Env H V) (w w' : World V) (h : I
     (hr' : resolve (runOps env ops' w').2 tg' p' = some (.gen gi'))
     (hg' : (runOps env ops' w').2.gens[gi']? = some g') (hk' : g'.kind = .td n s)
     (hp' : (runOps env ops' w').2.ptypes[p']? = some pt')
-    (ht : (runOps env ops w).2.clock.time = (runOps env ops' w').2.clock.time)
-    (hs : ¬ Sentinel (runOps env ops w).2 g) (hs' : ¬ Sentinel (runOps env ops' w').2 g') :
+    (ht : (runOps env ops w).2.clock.time = (runOps env ops' w').2.clock.time) :
     (runOp env (.read tg p) (runOps env ops w).2).1 = (runOp env (.read tg' p') (runOps env ops' w').2).1 := by
-  rw [read_is_function_of_time_partial env w h ops tg p gi g n s pt hr hg hk hp hs,
-      read_is_function_of_time_partial env w' h' ops' tg' p' gi' g' n s pt' hr' hg' hk' hp' hs', ht]
+  rw [read_is_function_of_time env w h ops tg p gi g n s pt hr hg hk hp,
+      read_is_function_of_time env w' h' ops' tg' p' gi' g' n s pt' hr' hg' hk' hp', ht]
 
 /-- **Repeated reads.**  Reading any dynamic parameter (any generator, time-dependent or not)
-twice at the same time returns the same result, and the second read changes nothing.
-(Also true at the sentinel time: both reads return the placeholder.) -/
+twice at the same time returns the same result, and the second read changes nothing. -/
 theorem repeated_read_same (env : Env H V) (w : World V) (tg : Target) (p : Nat) (hd : w.dynTD = true) :
     runOp env (.read tg p) (runOp env (.read tg p) w).2 = runOp env (.read tg p) w := by
   simp only [runOp]
@@ -163,9 +156,9 @@ theorem repeated_read_same (env : Env H V) (w : World V) (tg : Target) (p : Nat)
               = ((produceValue env true w.clock.time g false).1, (produceValue env true w.clock.time g false).2) := by
             unfold produceValue
             simp only [Bool.not_true, Bool.false_eq_true, if_false, Bool.false_or]
-            by_cases ht : w.clock.time = g.lastTime
+            by_cases ht : some w.clock.time = g.lastTime
             · simp [ht]
-            · have : (w.clock.time != g.lastTime) = true := by simpa using ht
+            · have : (some w.clock.time != g.lastTime) = true := by simpa using ht
               simp [this]
           simp only [readSlot, hr, hr', hp, hg, hd, List.getElem?_set_self hlt, key, List.set_set]
 
@@ -239,9 +232,9 @@ theorem state_pop_restores_cache (env : Env H V) (w : World V) (i : Nat) (body :
   have hgs2 : instGens w2 i = some gs := by
     rw [instGens_shape hsh]
     simpa [instGens, resolve] using hgs
-  let c : Nat → Option V × Int := fun x => match w.gens[x]? with
-    | some y => (y.last, y.lastTime) | none => (none, 0)
-  let s : Nat → List (Option V × Int) := fun x => match w.gens[x]? with
+  let c : Nat → Option V × Option Int := fun x => match w.gens[x]? with
+    | some y => (y.last, y.lastTime) | none => (none, none)
+  let s : Nat → List (Option V × Option Int) := fun x => match w.gens[x]? with
     | some y => y.saved | none => []
   have hsaved : ∀ x y, w2.gens[x]? = some y → ∃ y0, w.gens[x]? = some y0 ∧
       y.saved = List.replicate (gs.count x) (y0.last, y0.lastTime) ++ y0.saved := by
